@@ -1007,6 +1007,105 @@ fn run_mirror(ctx: &mut Ctx, rep: &mut Report, index: &mut u64) {
 }
 
 // ---------------------------------------------------------------------------
+// frequency matrices given directly (FrequencyMatrix::new), rows summing to one only within the tolerance
+// ---------------------------------------------------------------------------
+
+fn freq_rows_menu() -> Vec<Vec<f32>> {
+    vec![
+        vec![0.25, 0.25, 0.25, 0.25, 0.0],  // exactly one
+        vec![0.125, 0.375, 0.25, 0.248, 0.0], // 0.998
+        vec![0.7, 0.1, 0.101, 0.101, 0.0],  // 1.002
+        vec![0.333, 0.333, 0.166, 0.163, 0.0], // 0.995
+        vec![0.4, 0.3, 0.2, 0.05, 0.055],   // 1.005, wildcard mass
+    ]
+}
+
+fn check_freq_direct(rows: &[Vec<f32>], fails: &mut Fails) -> bool {
+    use lightmotif::pwm::FrequencyMatrix;
+    let fm = match catch(|| FrequencyMatrix::<Dna>::new(pm::dense_f32::<Dna>(rows))) {
+        Ok(Ok(fm)) => fm,
+        // acceptance is not demanded
+        Ok(Err(_)) => return false,
+        Err(p) => {
+            push(fails, format!("FrequencyMatrix::new panic {}", panic_class(&p)), p);
+            return true;
+        }
+    };
+    let cells = |m: &FrequencyMatrix<Dna>| -> Vec<Vec<f32>> { m.matrix().iter().map(|r| r.to_vec()).collect() };
+    match catch(|| {
+        let r = fm.reverse_complement();
+        let rr = r.reverse_complement();
+        let mut routes = Vec::new();
+        for bg in [Background::<Dna>::uniform(), Background::<Dna>::new([0.375, 0.125, 0.375, 0.125, 0.0]).unwrap()] {
+            let a: Vec<Vec<f32>> = r.to_scoring(bg.clone()).matrix().iter().map(|x| x.to_vec()).collect();
+            let b: Vec<Vec<f32>> = fm.to_scoring(bg).reverse_complement().matrix().iter().map(|x| x.to_vec()).collect();
+            routes.push((a, b));
+        }
+        (cells(&r), cells(&rr), routes)
+    }) {
+        Ok((r, rr, routes)) => {
+            let orig = cells(&fm);
+            if bits(&rr) != bits(&orig) {
+                push(fails, "frequency (given directly) rc(rc(m)) != m".into(), format!("frequency matrix {:?}: rc(rc(m)) = {:?}", orig, rr));
+            }
+            let want = pm::ref_rc(&orig);
+            if bits(&r) != bits(&want) {
+                push(fails, "frequency (given directly) rc(m) differs from the definition".into(), format!("frequency matrix {:?}: rc(m) = {:?}, expected {:?}", orig, r, want));
+            }
+            for (a, b) in routes {
+                // element-wise log-odds under a strand-symmetric background: the two routes are the same arithmetic per cell
+                if bits(&a) != bits(&b) {
+                    push(
+                        fails,
+                        "frequency (given directly) rc does not commute with to_scoring".into(),
+                        format!("frequency matrix {:?}: rc(m).to_scoring = {:?} but rc(m.to_scoring) = {:?}", orig, a, b),
+                    );
+                }
+            }
+        }
+        Err(p) => push(fails, format!("frequency (given directly) panic {}", panic_class(&p)), p),
+    }
+    true
+}
+
+fn run_freq_direct(ctx: &mut Ctx, rep: &mut Report, index: &mut u64) {
+    rep.space(
+        "frequency_direct",
+        "frequency matrices given DIRECTLY through FrequencyMatrix::new (not derived from counts): all matrices of width 1..=3 over a 5-row menu whose rows sum to 1, 0.998, 1.002, 0.995, 1.005 \
+         (inside the documented 0.01 tolerance; one row with wildcard mass): rc(rc(m)) == m bit for bit, rc(m) == rows reversed + columns complemented, rc commutes bit for bit with to_scoring under two strand-symmetric backgrounds; \
+         matrices the constructor rejects are skipped (acceptance is not demanded)",
+    );
+    let menu = freq_rows_menu();
+    for w in 1..=3usize {
+        let n = (menu.len() as u64).pow(w as u32);
+        for mi in 0..n {
+            let idx = *index;
+            *index += 1;
+            if !ctx.mine(idx) {
+                continue;
+            }
+            let mut k = mi;
+            let rows: Vec<Vec<f32>> = (0..w)
+                .map(|_| {
+                    let r = menu[(k % menu.len() as u64) as usize].clone();
+                    k /= menu.len() as u64;
+                    r
+                })
+                .collect();
+            let mut fails = Fails::new();
+            let in_domain = check_freq_direct(&rows, &mut fails);
+            rep.eval_distinct(in_domain);
+            for (sig, msg) in fails {
+                rep.violation(format!("C10 {}", sig), msg, || json!({"kind": "frequency_direct", "rows": pm::matrix_to_json(&rows)}));
+            }
+            if w == 2 && mi == 7 {
+                rep.sample_space(1, || json!({"kind": "frequency_direct", "rows": pm::matrix_to_json(&rows)}));
+            }
+        }
+    }
+}
+
+// ---------------------------------------------------------------------------
 // entry points
 // ---------------------------------------------------------------------------
 
@@ -1015,6 +1114,9 @@ pub fn run(ctx: &mut Ctx, rep: &mut Report) {
     let mut index = 0u64;
     run_matrix_level(ctx, rep, &mut index);
     pm::report_slack("C10 involution+commutation");
+    if ctx.wants("frequency_direct") {
+        run_freq_direct(ctx, rep, &mut index);
+    }
     if ctx.wants("mirror_scores") && !ctx.out_of_time() {
         run_mirror(ctx, rep, &mut index);
         pm::report_slack("C10 mirror_scores");
@@ -1033,6 +1135,14 @@ pub fn replay(_ctx: &mut Ctx, rep: &mut Report, case: &Value) {
                 rep.violation(format!("C10 involution {}", sig), msg, || {
                     c.json("involution", &sig)
                 });
+            }
+        }
+        "frequency_direct" => {
+            let rows = pm::matrix_from_json(&case["rows"]);
+            let mut fails = Fails::new();
+            check_freq_direct(&rows, &mut fails);
+            for (sig, msg) in fails {
+                rep.violation(format!("C10 {}", sig), msg, || json!({"kind": "frequency_direct", "rows": pm::matrix_to_json(&rows)}));
             }
         }
         "commutation" => {
